@@ -1,11 +1,13 @@
 package pshake
 
 import (
+	"bufio"
 	"bytes"
 	"encoding/binary"
 	"encoding/json"
 	"fmt"
 	"hash"
+	"io"
 	"runtime/debug"
 	"runtime/metrics"
 	"time"
@@ -49,6 +51,61 @@ func loadAllCheap(data []byte) string {
 		hugeAllocs++
 	}
 	return how
+}
+
+// splitReader hands out the bytes in pieces of the given sizes (cycled): short reads, as a socket or a buffer
+// boundary produces them.
+type splitReader struct {
+	data  []byte
+	sizes []int
+	k     int
+}
+
+func (s *splitReader) Read(p []byte) (int, error) {
+	if len(s.data) == 0 {
+		return 0, io.EOF
+	}
+	n := s.sizes[s.k%len(s.sizes)]
+	s.k++
+	if n > len(p) {
+		n = len(p)
+	}
+	if n > len(s.data) {
+		n = len(s.data)
+	}
+	copy(p, s.data[:n])
+	s.data = s.data[n:]
+	return n, nil
+}
+
+// loadAllSplit is loadAll over a source that delivers the file in pieces.
+func loadAllSplit(data []byte, sizes []int, buffered int) (how string) {
+	defer func() {
+		if x := recover(); x != nil {
+			how = "panic"
+		}
+	}()
+	var src io.Reader = &splitReader{data: data, sizes: sizes}
+	if buffered > 0 {
+		src = bufio.NewReaderSize(src, buffered)
+	}
+	l := rdb.NewLoader(src)
+	if err := l.Header(); err != nil {
+		return "header"
+	}
+	for {
+		e, err := l.NextBinEntry()
+		if err != nil {
+			return "entry"
+		}
+		if e == nil {
+			break
+		}
+	}
+	if err := l.Footer(); err != nil {
+		return "footer"
+	}
+	return ""
 }
 
 // loadAll runs Header..Footer; returns "" when the file is accepted, else how it was rejected.
@@ -118,6 +175,25 @@ func c11rdbChild(raw json.RawMessage, scratch string) {
 			data, f = smallFile(base.At(uint64(art)), 300)
 			hexs = fmt.Sprintf("%x", data)
 			curArt = art
+			if pos == 0 && sub == 0 {
+				cs := c11case{Artefact: art, Version: f.Version, Hex: hexs}
+				wk.ChildCase(idx, cs)
+				// the intact file must be accepted; every truncation must be rejected
+				if how := loadAll(data); how != "" {
+					r.Violationf("C11|rdb|outcome=intact-rejected", cs, "intact RDB (version %d) rejected at %s", f.Version, how)
+				}
+				// ... however its bytes are split across reads
+				for _, sh := range []struct {
+					name  string
+					sizes []int
+					buf   int
+				}{{"1-byte", []int{1}, 0}, {"1,2,3,7", []int{1, 2, 3, 7}, 0}, {"halves", []int{(len(data) + 1) / 2}, 0}, {"bufio16-over-5", []int{5}, 16}, {"bufio64-over-1,100", []int{1, 100}, 64}} {
+					r.Count("rdb_intact_split_deliveries", 1)
+					if how := loadAllSplit(data, sh.sizes, sh.buf); how != "" {
+						r.Violationf("C11|rdb|outcome=intact-rejected-when-split|delivery="+sh.name, cs, "intact RDB (version %d, %d bytes) delivered in pieces (%s) rejected at %s", f.Version, len(data), sh.name, how)
+					}
+				}
+			}
 		}
 		if pos > len(data) {
 			idx = (art+1)*1000000 - 1
@@ -137,10 +213,7 @@ func c11rdbChild(raw json.RawMessage, scratch string) {
 				idx = (art+1)*1000000 - 1
 				continue
 			}
-			// the intact file must be accepted; every truncation must be rejected
-			if how := loadAll(data); how != "" {
-				r.Violationf("C11|rdb|outcome=intact-rejected", cs, "intact RDB (version %d) rejected at %s", f.Version, how)
-			}
+			// every truncation must be rejected (the intact file was checked when the artefact was opened)
 			for cut := 0; cut < len(data); cut++ {
 				if how := loadAllCheap(data[:cut]); how == "" {
 					r.Violationf("C11|rdb|outcome=truncated-accepted", cs, "RDB truncated to %d of %d bytes accepted", cut, len(data))
